@@ -104,7 +104,7 @@ def apply (t : S) : Op → Except Err (S × Option Out)
       .ok (groupInto t par xs, some (.id t.next))
   | .newLayer _ _ => .ok (t.alloc .leaf, some (.id t.next))
   | .newDoc _ => .ok (t.alloc .doc, some (.id t.next))
-  | .setVisible _ _ | .setLeft _ _ | .setTop _ _ | .setAttr _ => .ok (t, none)
+  | .setVisible _ _ | .setLeft _ _ | .setTop _ _ | .setAttr _ | .setBlocks _ _ => .ok (t, none)
   | .observe o =>
     match o with
     | .len g => .ok (t, some (.int (t.lists g).length))
